@@ -575,3 +575,35 @@ Proof.
   - destruct (spans_elems_children es 5) as [_ [_ H]]. rewrite !zlen_cons, zlen_app, zlen_enc_int.
     replace (1 + (Z.of_nat 4 + zlen (flat_map encode es))) with (5 + zlen (flat_map encode es)) by lia. exact H.
 Qed.
+
+(* ================= raw (binary) map keys: only a COMPLETE key encoding addresses an entry ================= *)
+Lemma find_key_none pr es : forall off, Forall (fun e => pr (fst e) = false) es -> find_key pr es off = LNotFound.
+Proof.
+  induction es as [|e es IH]; intros off H; [reflexivity|]. inversion H as [|? ? He Hes]; subst.
+  cbn [find_key]. rewrite He. apply IH. exact Hes.
+Qed.
+
+(* raw bytes that are not the encoding of any key of the map — a cut key, the empty string, a key followed by further bytes
+   of its entry, bytes of the wrong width — are reported NOT FOUND by the byte-level search, whatever follows in the path *)
+Theorem bin_key_not_a_key_not_found : forall kt vt es b p r off,
+  wf (VMap kt vt es) = true -> (depth (VMap kt vt es) <= max_skip_depth)%nat ->
+  (forall e, In e es -> encode (fst e) <> b) ->
+  get_by_path T_MAP (encode (VMap kt vt es) ++ r) off (PBinKey b :: p) = GNotFound.
+Proof.
+  intros kt vt es b p r off Hw Hd Hne.
+  change T_MAP with (type_of (VMap kt vt es)). rewrite get_by_path_refines_lookup by assumption.
+  cbn [lookup lookup1]. rewrite find_key_none; [reflexivity|].
+  rewrite Forall_forall. intros e Hin. unfold bin_key_is.
+  destruct (bytes_eqb (encode (fst e)) b) eqn:E; [|reflexivity]. apply bytes_eqb_eq in E. exfalso. exact (Hne e Hin E).
+Qed.
+
+(* in particular raw bytes whose length is not the width of a fixed-size key type *)
+Corollary bin_key_wrong_width_not_found : forall kt vt es b p r off,
+  wf (VMap kt vt es) = true -> (depth (VMap kt vt es) <= max_skip_depth)%nat ->
+  fixed_size kt >? 0 = true -> zlen b <> fixed_size kt ->
+  get_by_path T_MAP (encode (VMap kt vt es) ++ r) off (PBinKey b :: p) = GNotFound.
+Proof.
+  intros kt vt es b p r off Hw Hd Hf Hlen. apply bin_key_not_a_key_not_found; try assumption.
+  intros e Hin E. destruct (good_map_inv kt vt es (conj Hw Hd)) as [_ HF]. rewrite Forall_forall in HF.
+  destruct (HF e Hin) as [Tk _]. apply Hlen. rewrite <- E, <- Tk. apply fixed_encode_len. rewrite Tk. exact Hf.
+Qed.
